@@ -24,6 +24,9 @@ Definition attach_step (step : N) (s : sa_state) : sa_state :=
 Definition attach_walltime (w : N) (s : sa_state) : sa_state :=
   mkSA (a_interval s) w (a_step s) (a_wall s) (a_next_step s) (a_t s) (a_wall s) (a_steps_done s).
 
+Lemma attach_same : forall s, attach_interval (a_interval s) s = s /\ attach_step (a_step s) s = s.
+Proof. intros s. unfold attach_interval, attach_step. rewrite !N.eqb_refl. split; reflexivity. Qed.
+
 (* ---------------- step cadence *)
 Open Scope N_scope.
 
